@@ -585,7 +585,9 @@ def translate_take(model, s):
                 n = strip_box(f.rust_type)
                 if "take" not in model.structs[n].methods:
                     raise TranslateError("%s: .take() on %s which has no take()" % (w, n))
-                sub = model.info[n]["take"]
+                sub = model.info[n]["take"] if n in model.info else None
+                if sub is None:
+                    raise TranslateError("%s: nested %s::take() could not be translated" % (w, n))
                 all_default = all(x["left_class"] == "default" for x in sub) and model.has_default(n)
                 out.append(dict(field=f.name, ret="(fst (%s_take %s))" % (n, proj), ret_class="nested",
                                 left="(snd (%s_take %s))" % (n, proj),
